@@ -318,7 +318,7 @@ fn render_mut(q: &Query, text: &str) -> Option<String> {
     // a float is named by the literal of the text that has its value (the model keeps the literal; that the value is the
     // one Rust's `f64::from_str` gives for it is what this says)
     let float_lit = |f: f64| -> String {
-        text.split(|c: char| c.is_whitespace() || c == ';').find(|t| t.contains('.') && t.chars().all(|c| c.is_ascii_digit() || c == '.' || c == '-') && t.parse::<f64>().ok() == Some(f)).map(|t| t.to_string()).unwrap_or_else(|| format!("{:?}", f))
+        text.split(|c: char| c.is_whitespace() || c == ';' || c == '"').find(|t| t.contains('.') && t.chars().all(|c| c.is_ascii_digit() || c == '.' || c == '-') && t.parse::<f64>().ok() == Some(f)).map(|t| t.to_string()).unwrap_or_else(|| format!("{:?}", f))
     };
     if q.attributes().next().is_some() || q.resulttype() != Some(Type::Annotation) { return None; }
     let name = q.name().map(|n| hex(n)).unwrap_or_else(|| "~".into());
@@ -350,7 +350,7 @@ fn floats_canonical(q: &Query, text: &str) -> bool {
         Assignment::Data { value: DataValue::Float(f), .. } => {
             let mut p = format!("{}", f);
             if !p.contains('.') && f.is_finite() { p += ".0"; }
-            text.split(|c: char| c.is_whitespace() || c == ';').any(|t| t == p) && !text.split(|c: char| c.is_whitespace() || c == ';').any(|t| t != p && t.contains('.') && t.parse::<f64>().ok() == Some(*f))
+            text.split(|c: char| c.is_whitespace() || c == ';' || c == '"').any(|t| t == p) && !text.split(|c: char| c.is_whitespace() || c == ';' || c == '"').any(|t| t != p && t.contains('.') && t.parse::<f64>().ok() == Some(*f))
         }
         _ => true,
     })
@@ -523,7 +523,9 @@ pub fn exec_line(line: &str) -> String {
     let t: Vec<&str> = line.split_whitespace().collect();
     match t.as_slice() {
         ["ql", "cn", h, _] => cn_exec(&crate::fam::store::unhex_s(h)),
-        ["ql", "q", h, _] | ["ql", "q", h, _, "noprint"] => q_exec(&crate::fam::store::unhex_s(h)).0,
+        ["ql", "q", h, _] => q_exec(&crate::fam::store::unhex_s(h)).0,
+        // (the line was sent without comparing the printed text: the last field is left out again)
+        ["ql", "q", h, _, "noprint"] => { let a = q_exec(&crate::fam::store::unhex_s(h)).0; match a.rfind(" | ") { Some(i) if a.starts_with("ok | ") => format!("{} | ~", &a[..i]), _ => a } }
         ["ql", "arg", ..] | ["ql", "type", ..] | ["ql", "op", ..] => lex_exec(line),
         ["ql", "parse", h] => {
             let s = crate::fam::store::unhex_s(h);
